@@ -102,6 +102,15 @@ Theorem C02_greedy_sampling_rows :
 Proof. intros d ns lab cidx n mapping k noises H1 H2 H3 H4 t i p row Hi. exact (gsx_rows d ns lab cidx n mapping k noises H1 H2 H3 H4 i (p, row) Hi). Qed.
 Print Assumptions C02_greedy_sampling_rows.
 
+(* sampling strategies: every row is NaN exactly at the earlier picks and the drawn sample has strictly
+   positive mass in its row - for every raw weight oracle and every contract-respecting sequence of draws *)
+Theorem C02_sampling_loop_rows :
+  forall (m : nat) (raws : list (list Z)) (picks prev : list nat),
+  Forall (fun r => length r = m) raws -> contract_ok raws picks prev = true ->
+  psteps_ok SelSampling (seq 0 m) prev m (sampling_trace raws picks prev) = true.
+Proof. exact sampling_trace_accepted. Qed.
+Print Assumptions C02_sampling_loop_rows.
+
 (* rows built with one tie-break and winners re-derived with another one (the
    BatchBALD pattern) allow a repeated pick: witness with two tied maxima *)
 Theorem C02_two_tiebreaks_refuted :
